@@ -17,6 +17,8 @@ def metas():
 def verdict(c):
     if not c:
         return "not run"
+    if c.get("inconclusive"):
+        return "inconclusive"
     if not c.get("detected"):
         return "MISSED"
     if "no-failing-input-found" in (c.get("first_line") or ""):
